@@ -105,3 +105,101 @@ def saba_task(v, saba_type):
 for _t in (0, 1, 2, 3, 4, 5, 6, 7, 8, 9, 0x100, 0x101, 0x102, 0x103, 0x200, 0x201, 0x202, 0x203):
     P.tasks.append(Task(P, "saba.type_0x%x.synchronize.keep_unsynchronized_restores_every_cached_particle" % _t,
                         "reb_integrator_saba_synchronize", (lambda v, _t=_t: saba_task(v, _t)), files=SABA_FILES))
+
+
+# =====================================================================================================
+# WHFast part2 with variational particles: part2 always synchronises (MEGNO needs x, v, a at the same time) and, with
+# keep_unsynchronized = 1, afterwards puts the cached coordinates back to the unsynchronised state.  The centre of mass of each
+# set of variational particles is advanced by part1 (first half) and by this block of part2 (second half) -- outside the
+# Kepler / COM primitives -- so the second half must survive the restore; everything else in p_jh must be exactly the state
+# after the kernel.  (Found as a genuine defect: the restore also undid the second half, the variational particles lagged by
+# dt/2 * v_com per step; repaired by a fix: commit.)
+# =====================================================================================================
+PART2 = "reb_integrator_whfast_part2"
+
+
+def part2_var_task(v):
+    from engine.mem import StructObj, ArrObj
+    eng = v.eng
+    r, rp = v.struct_obj("struct reb_simulation", "r")
+    N, Nv, vidx = v.int("N"), v.int("N_var"), v.int("var_index")
+    v.assume(N >= 3, Nv >= 1, vidx == N - Nv, vidx >= 2)
+    r.N, r.N_var, r.N_var_config = N, Nv, 1
+    r.N_active = z3.IntVal(-1)
+    r.testparticle_type = z3.IntVal(0)
+    r.calculate_megno = z3.IntVal(0)
+    dt, t0 = v.real("dt"), v.real("t")
+    r.dt, r.t = dt, t0
+    t = eng.ctype("struct reb_variational_configuration")
+    vc = StructObj(t, {})
+    vc.fields.update(order=z3.IntVal(1), index=vidx, testparticle=z3.IntVal(-1), index_1st_order_a=z3.IntVal(0),
+                     index_1st_order_b=z3.IntVal(0), lrescale=z3.RealVal(0))
+    arr = ArrObj(t, 1, "list", "VC")
+    arr.items = [vc]
+    v.st.mem.add(arr)
+    r.var_config = Ptr(arr.id, (z3.IntVal(0),), False)
+    parts = v.array("struct reb_particle", N, "P")
+    r.particles = parts.ptr
+    pj = v.array("struct reb_particle", N, "PJ")
+    w = lambda f, val: eng.write(v.st, Ptr(rp.obj, ("ri_whfast", f)), val)
+    w("p_jh", pj.ptr)
+    w("keep_unsynchronized", z3.IntVal(1))
+    w("safe_mode", z3.IntVal(0))
+    w("is_synchronized", z3.IntVal(0))
+    w("N_allocated", N)
+    w("kernel", z3.IntVal(0))            # variational particles require the default kernel and Jacobi coordinates (checked by init)
+    w("coordinates", z3.IntVal(0))
+    w("corrector", z3.IntVal(0))
+    w("corrector2", z3.IntVal(0))
+    S = {}
+    leaves = sorted(pj.obj.leaf_types, key=str)
+
+    def kernel_prim(e, st, args, n):
+        e.havoc(st, {(pj.obj.id, None)}, "kernel")
+        a = st.mem.get(pj.obj.id)
+        S["after_kernel"] = {leaf: e._leaf_array(a, leaf) for leaf in leaves}
+        return None
+    for nm in ("reb_whfast_interaction_step", "reb_whfast_jump_step"):
+        v.contract(nm, kernel_prim)
+
+    def transform(e, st, args, n):
+        e.havoc(st, {(parts.obj.id, None)}, "transform")       # frame of the transformations: C12
+        return None
+    v.contract("reb_particles_transform_jacobi_to_inertial_posvel", transform)
+
+    def synchronize(e, st, args, n):
+        # contract of reb_integrator_whfast_synchronize (task whfast.synchronize.* above and C09_sync): writes p_jh and particles;
+        # keep_unsynchronized != 0: p_jh restored, flag kept; == 0: is_synchronized := 1
+        keep = as_int(e.read(st, Ptr(rp.obj, ("ri_whfast", "keep_unsynchronized"))))
+        e.havoc(st, {(parts.obj.id, None)}, "sync")
+        if e.decide(st, keep == 0):
+            e.havoc(st, {(pj.obj.id, None)}, "sync")
+            e.write(st, Ptr(rp.obj, ("ri_whfast", "is_synchronized")), z3.IntVal(1))
+        return None
+    v.contract("reb_integrator_whfast_synchronize", synchronize)
+    eng.havoc_calls |= {"reb_simulation_error"}
+    v.call(PART2, rp)
+    v.ground("kernel_reached", "after_kernel" in S, "")
+    if "after_kernel" not in S:
+        return
+    k = v.int("k")
+    v.assume(0 <= k, k < N)
+    a = v.st.mem.get(pj.obj.id)
+    A = S["after_kernel"]
+    half = dt / 2
+    for leaf in leaves:
+        now = z3.Select(eng._leaf_array(a, leaf), k)
+        was = z3.Select(A[leaf], k)
+        name = ".".join(map(str, leaf))
+        if leaf in (("x",), ("y",), ("z",)):
+            vel = z3.Select(A[("v" + leaf[0],)], k)
+            v.prove("cached.%s.is_state_after_kernel_with_variational_com_at_end_of_step" % name,
+                    now == z3.If(k == vidx, was + half * vel, was))
+        else:
+            v.prove("cached.%s.is_state_after_kernel" % name, now == was)
+    v.prove("stays_unsynchronised", as_int(eng.read(v.st, Ptr(rp.obj, ("ri_whfast", "is_synchronized")))) == 0)
+    v.prove("keep_flag_restored", as_int(eng.read(v.st, Ptr(rp.obj, ("ri_whfast", "keep_unsynchronized")))) == 1)
+    v.prove("time_advanced_by_half_a_step", r.t == t0 + half)
+
+
+P.tasks.append(Task(P, "whfast.part2.variational.keep_unsynchronized_state_is_the_state_after_the_kernel", PART2, part2_var_task, files=FILES))
